@@ -703,6 +703,7 @@ Proof.
   assert (Hg : forall cid, getc s cid = dummy_conn) by (intros; unfold getc; rewrite Hc; reflexivity).
   constructor; unfold olive; cbn [o_rest o_closed]; intros; rewrite ?Hg, ?Hr in *; cbn in *; auto; try discriminate.
   all: try (unfold tasks in *; rewrite Hu, Hl in *; cbn in *; tauto).
+  all: try contradiction.
 Qed.
 
 Theorem outbound_holds : forall i t, run_history i = Some t -> outbound_ok t = true.
